@@ -282,6 +282,19 @@ Definition op_names (o : op) : list str :=
   | OSetData _ names _ => [] :: match names with Some l => l | None => [] end
   end.
 
+(* ... as it is executed: `las[k] = array` on a key that exists updates that curve and brings
+   no new mnemonic (so las["A:1"] = array is harmless while A:1 is a key) *)
+Definition brought (s : section) (o : op) : list str :=
+  match o with
+  | OSetItem k (VArr _) => match key_index (keys s) k with Some _ => [] | None => [k] end
+  | _ => op_names o
+  end.
+Fixpoint brought_all (s : section) (ops : list op) : list str :=
+  match ops with
+  | [] => []
+  | o :: r => brought s o ++ brought_all (step_keep s o) r
+  end.
+
 (* a fresh LASFile() has an empty ~Curves section (mnemonic_transforms False); reading a file
    appends the parsed curve items in file order and then binds the data columns *)
 Definition fresh_las : section := empty_section false.
